@@ -259,7 +259,10 @@ func TestC13_KeyImport(t *testing.T) { rapid.Check(t, propKeyImport) }
 // the challenge comes out of SHA-256 and cannot be steered).  The valid
 // signature must be accepted and its neighbours rejected there too.
 func TestC13_StructuredChallengeCorpus(t *testing.T) {
-	raw, err := os.ReadFile(filepath.Join("testdata", "structured_challenges.txt"))
+	raw, err := os.ReadFile(filepath.Join(os.Getenv("VERIF_ROOT"), "harness", "c13", "testdata", "structured_challenges.txt"))
+	if err != nil {
+		raw, err = os.ReadFile(filepath.Join("testdata", "structured_challenges.txt"))
+	}
 	if err != nil {
 		t.Fatalf("HARNESS-INCONCLUSIVE: corpus missing: %v", err)
 	}
